@@ -38,7 +38,7 @@ def anchors():
 
 
 def cases(ctx):
-    yield from c11.cases(ctx, random_n=(500, 16 * 5000))
+    yield from c11.cases(ctx, random_n=(350, 16 * 5000))
 
 
 def render(notes, columns):
